@@ -18,7 +18,7 @@ from .. import ir
 from ..graph import relooper
 from . import components
 from ..codegen.irdag import SelectionGraphBuilder, prepare_function_info
-from ..codegen.irdag import FunctionInfo
+from ..codegen.irdag import FunctionInfo, split_phi_edges
 from ..codegen.dagsplit import DagSplitter
 from ..binutils import debuginfo
 from ..utils.bitfun import to_signed
@@ -281,6 +281,10 @@ class IrToWasmCompiler:
         self.logger.debug("Generating wasm for %s", ir_function)
 
         # Generate function code:
+        # The copies into the phis of a block which is the target of a
+        # conditional branch must happen on that edge only:
+        split_phi_edges(ir_function)
+
         # Create a selection graph, so that we have expression trees
         arch = WasmArchitecture()
         sdagb = SelectionGraphBuilder(arch)
